@@ -5,6 +5,7 @@ import (
 	"context"
 	"database/sql"
 	"path/filepath"
+	"strings"
 
 	"github.com/pojntfx/stfs/internal/converters"
 	"github.com/pojntfx/stfs/internal/records"
@@ -47,6 +48,10 @@ func (o *Operations) Delete(name string) error {
 
 	headersToDelete := []*config.Header{}
 	dbhdr, err := o.metadata.Metadata.GetHeader(context.Background(), name)
+	if err == sql.ErrNoRows {
+		// Directories that were indexed from a foreign archive with absolute member names keep their trailing slash
+		dbhdr, err = o.metadata.Metadata.GetHeader(context.Background(), strings.TrimSuffix(name, "/")+"/")
+	}
 	if err != nil {
 		if err == sql.ErrNoRows {
 			dbhdr, err = o.metadata.Metadata.GetHeaderByLinkname(context.Background(), name)
@@ -77,7 +82,7 @@ func (o *Operations) Delete(name string) error {
 			return err
 		}
 
-		hdr.Size = 0 // Don't try to seek after the record
+		hdr.Size = 0               // Don't try to seek after the record
 		hdr.Format = tar.FormatPAX // The entry might come from a USTAR or GNU archive, which can't carry the records below
 		hdr.PAXRecords[records.STFSRecordVersion] = records.STFSRecordVersion1
 		hdr.PAXRecords[records.STFSRecordAction] = records.STFSRecordActionDelete
